@@ -7,8 +7,11 @@ import Shentu.EVM.Bytes
   /repo/vm/contract.go (execute, gasLookUp, subslice), gas.go, memory.go, utils.go and
   Burrow v0.31.0's Stack / dynamicMemory / errors.Maybe behave — quirks included.
   Every cost comes from `Shentu.Gen.Gas` (generated from op_table.go / gas.go).
-  The call family, BALANCE, EXTCODE*, BLOCKHASH and SELFDESTRUCT are not modelled: reaching one
-  of them ends the run with `Step.unsupported`.
+  The call family, CREATE / CREATE2, BALANCE, EXTCODE*, BLOCKHASH and SELFDESTRUCT are modelled over an account cache
+  (`World`); callee and constructor frames are run by the `ChildFn` the frame is given (`runDepth`).
+  Outside the model (`Step.unsupported`): native / precompile addresses, re-use of an address destroyed earlier in the
+  transaction, nesting deeper than `runDepth`'s bound.  The address CREATE derives is SHA-256 based and is an input of
+  the model (`Env.fresh`); the address of CREATE2 is computed (Keccak-256).
 -/
 namespace Shentu.EVM
 open Shentu.Gen.Gas (OpInfo Dyn MemRule)
@@ -50,6 +53,28 @@ structure Quirks where
   /-- SELFDESTRUCT naming the running contract itself does nothing (the contract and its balance stay; repair of a coin
       loss, C01) — spec: the balance is burnt and the account removed -/
   selfDestructSelfKeeps : Bool := true
+  /-- CREATE2 derives the address from the hash of the CREATOR's deployed code (spec: the hash of the init code) -/
+  create2HashesCreatorCode : Bool := true
+  /-- the constructor of CREATE / CREATE2 receives the init code as its call data too (spec: empty call data) -/
+  createInputIsInitCode : Bool := true
+  /-- CREATE / CREATE2 in a read-only (STATICCALL) frame runs the constructor in a writable child frame and fails only when a
+      successful creation is written back (spec: the instruction is an exceptional halt) -/
+  staticCreateRuns : Bool := true
+  /-- a CREATE whose endowment the creator cannot pay runs the constructor anyway, then pushes 0 and keeps the constructor's
+      output as return data (spec: the constructor is not run, the return data is empty) -/
+  unpayableCreateRuns : Bool := true
+  /-- a CREATE / CREATE2 whose derived address already has an account puts DuplicateAddress into the CREATOR's error sink: the
+      creator's frame fails (spec: the creation fails, 0 is pushed, the creator goes on) -/
+  createCollisionAborts : Bool := true
+  /-- a constructor that destroys the account being created makes InitChildCode fail (NonExistentAccount) in the CREATOR's
+      frame (spec: the creation succeeds, the address is pushed) -/
+  constructorSelfdestructAborts : Bool := true
+  /-- no limit on the size of deployed code other than the memory cap (spec, EIP-170: more than 24576 bytes fail the creation) -/
+  noCodeSizeLimit : Bool := true
+  /-- Burrow's contract metadata: when the creator (or the contract it descends from) lists code hashes, a constructor whose
+      returned code is not on the list makes InitChildCode fail (InvalidContractCode) in the CREATOR's frame, after the
+      constructor has succeeded (spec: no such restriction) -/
+  childCodeWhitelist : Bool := true
   deriving Repr, Inhabited
 
 /-- the interpreter as it is (repaired since the first version of this record: the call output window and the call value
@@ -61,7 +86,9 @@ def Quirks.spec : Quirks :=
   { readBeyondErr := false, dataOffsetU64 := false, zeroLenGrows := false, noStackLimit := false, hugeOffsetNotOog := false,
     childExceptionAborts := false, callUnknownErr := false, callOutputWindow := false, queryUnknownErr := false,
     valueFailAborts := false, staticCallValue := false, callCreatesAccount := false, blockhashErr := false,
-    staticNotInherited := false, selfDestructSelfKeeps := false }
+    staticNotInherited := false, selfDestructSelfKeeps := false, create2HashesCreatorCode := false,
+    createInputIsInitCode := false, staticCreateRuns := false, unpayableCreateRuns := false, createCollisionAborts := false,
+    constructorSelfdestructAborts := false, noCodeSizeLimit := false, childCodeWhitelist := false }
 
 /-- ids of the deviation points (Frame.dev) -/
 def devName : Nat → String
@@ -70,6 +97,9 @@ def devName : Nat → String
   | 7 => "child_exception_aborts_parent" | 8 => "call_unknown_address" | 9 => "call_output_window"
   | 10 => "account_query_unknown_address" | 11 => "unpayable_call_aborts" | 12 => "static_call_value"
   | 13 => "call_creates_empty_account" | 14 => "blockhash_out_of_range" | 15 => "selfdestruct_to_self_keeps_account"
+  | 16 => "create2_hashes_creator_code" | 17 => "constructor_calldata_is_init_code" | 18 => "create_in_static_context"
+  | 19 => "unpayable_create_runs_constructor" | 20 => "create_collision_aborts_creator"
+  | 21 => "selfdestruct_in_constructor_aborts_creator" | 22 => "code_size_limit" | 23 => "child_code_hash_whitelist"
   | _ => "unexplained"
 
 /-- a cost no gas allowance covers (specification mode: "this instruction runs out of gas") -/
@@ -90,6 +120,10 @@ structure Env where
   callType : Nat := 0        -- exec.CallType: 0 Call, 1 CallCode, 2 DelegateCall, 3 StaticCall
   readOnly : Bool := false   -- this frame's cache is read-only and its event sink log-free (the callee of a STATICCALL)
   fuelCap : Nat := 2 ^ 62    -- bound on the iterations of one frame (the specification mode runs with unlimited gas)
+  seq0 : Nat := 0            -- the CVM's sequence counter when this frame starts
+  /-- `crypto.NewContractAddress(creator, txNonce ‖ BE64(sequence))` (SHA-256 based): an input of the model, as a function of
+      the creator and the sequence number -/
+  fresh : Nat → Nat → Nat := fun _ _ => 0
 
 /-- what a call frame hands back to `CallFromSite` / `CVM.Execute` -/
 structure CallRes where
@@ -104,6 +138,7 @@ structure CallRes where
   seen : Nat := 0
   dev : Nat := 0
   devs : Nat := 0
+  seq : Nat := 0               -- the CVM's sequence counter when the frame ended (kept by the caller whatever the outcome)
 
 /-- runs a callee frame: environment, gas allowance, the caller's cache, destroyed accounts -/
 abbrev ChildFn := Env → Nat → World → List Nat → CallRes
@@ -441,21 +476,18 @@ def jumpWord (env : Env) (to : Nat) (viaPop64 : Bool) : M Unit := do
     if viaPop64 && env.q.dataOffsetU64 then jumpTo env 0   -- Pop64 read the word as 0 and the jump is still attempted
   else jumpTo env to
 
-/-- instructions outside the model: CREATE, CREATE2 -/
-def isExt (op : Nat) : Bool := op ∈ [0xf0, 0xf5]
-
-/-- opcodes with a case in the `switch` of execute (CREATE / CREATE2 excluded) -/
+/-- opcodes with a case in the `switch` of execute -/
 def isKnown (op : Nat) : Bool :=
   op ≤ 0x0b || (0x10 ≤ op && op ≤ 0x1d) || op == 0x20 || (0x30 ≤ op && op ≤ 0x46) || (0x50 ≤ op && op ≤ 0x5b) ||
-  (0x60 ≤ op && op ≤ 0xa4) || (0xf1 ≤ op && op ≤ 0xf4) || op == 0xfa || op == 0xfd || op == 0xfe || op == 0xff
+  (0x60 ≤ op && op ≤ 0xa4) || (0xf0 ≤ op && op ≤ 0xf5) || op == 0xfa || op == 0xfd || op == 0xfe || op == 0xff
 
 /-- instructions that end the frame: STOP, RETURN, REVERT, INVALID, SELFDESTRUCT and every unknown opcode -/
 def isHalting (op : Nat) : Bool := op == 0x00 || op == 0xf3 || op == 0xfd || op == 0xfe || op == 0xff || !isKnown op
 
 /-- instructions whose table cost can be 0 although they continue (EXP, RETURNDATACOPY, CHAINID, SSTORE, LOG0-4,
-    DELEGATECALL, STATICCALL have `staticGas` 0): their first action is a charged stack operation -/
+    DELEGATECALL, CREATE2, STATICCALL have `staticGas` 0): their first action is a charged stack operation -/
 def isFree (op : Nat) : Bool :=
-  op == 0x0a || op == 0x3e || op == 0x46 || op == 0x55 || (0xa0 ≤ op && op ≤ 0xa4) || op == 0xf4 || op == 0xfa
+  op == 0x0a || op == 0x3e || op == 0x46 || op == 0x55 || (0xa0 ≤ op && op ≤ 0xa4) || op == 0xf4 || op == 0xf5 || op == 0xfa
 
 /-- the return value of a halting instruction -/
 def haltBody0 (env : Env) (op : Nat) : M ByteArray := do
@@ -593,10 +625,12 @@ def callFromSite (child : ChildFn) (env : Env) (op gasLimit target value : Nat) 
     caller := if op == 0xf4 then env.caller else env.callee,
     callee := if op == 0xf1 || op == 0xfa then target else env.callee,
     callType := if op == 0xf1 then 0 else if op == 0xf2 then 1 else if op == 0xf4 then 2 else 3,
-    readOnly := op == 0xfa || (env.readOnly && !env.q.staticNotInherited) }
+    readOnly := op == 0xfa || (env.readOnly && !env.q.staticNotInherited),
+    seq0 := s.seq }
   if op == 0xfa && !env.q.staticCallValue && Quirks.impl.staticCallValue && value != 0 then noteDev 12   -- (repaired: no longer a deviation)
   let r := child cenv targetGas w s.removed
   orSeen r.seen r.dev r.devs
+  setSeq r.seq
   if r.status != 0 then return { status := if r.status == 3 then 2 else r.status }
   let s ← getF
   let st := settle env.readOnly s.world s.dirty s.removed r
@@ -646,7 +680,213 @@ def callRest (child : ChildFn) (env : Env) (op gasLimit : Nat) : M Ctl := do
           setRetBuf .empty
       pure (.next, r.refund)
 
-/-- what EXP, RETURNDATACOPY, SSTORE, LOGn, DELEGATECALL and STATICCALL do after their first Pop -/
+-- ---------------------------------------------------------------- CREATE, CREATE2
+
+/-- EIP-170 (specification mode only) -/
+def maxCodeSize : Nat := 24576
+
+/-- crypto.NewContractAddress2(creator, salt, code): keccak256(0xff ‖ creator ‖ salt ‖ keccak256(code))[12:] -/
+def create2Addr (creator salt : Nat) (code : ByteArray) : Nat :=
+  addrOf (word (Keccak.keccak256 (((ByteArray.empty.push 0xff ++ natBE creator 20) ++ natBE salt 32) ++ Keccak.keccak256 code)))
+
+/-- the opcodes that read the call data (bit set over `Frame.seen`) -/
+def calldataOps : Nat := (1 <<< 0x35) ||| (1 <<< 0x36) ||| (1 <<< 0x37)
+
+/-- The address of the account to be created.  CREATE: `c.sequence++` — the counter is a field of the CVM, shared by every
+    frame of the transaction and never rolled back — then the SHA-256 based derivation, an input of the model.
+    CREATE2: pops the salt and hashes the CREATOR's deployed code. -/
+def deriveAddr (env : Env) (op : Nat) (input : ByteArray) : M Nat := do
+  if op == 0xf0 then
+    let s ← getF
+    setSeq (s.seq + 1)
+    pure (env.fresh env.callee (s.seq + 1))
+  else
+    let salt ← pop
+    let s ← getF
+    if (s.world.get env.callee).isNone then pushErr .nonExistentAccount            -- MustGetAccount(…, params.Callee)
+    let own := ((s.world.get env.callee).map (·.code)).getD .empty
+    let a := create2Addr env.callee salt own
+    if env.q.create2HashesCreatorCode then pure a
+    else
+      let a' := create2Addr env.callee salt input
+      if a' != a then noteDev 16
+      pure a'
+
+/-- what the creator's frame looks like after the constructor has returned, and what the CREATE instruction does with it -/
+structure Created where
+  world : World
+  dirty : Bool
+  removed : List Nat
+  err : Option Err := none       -- goes into the CREATOR's error sink (InitChildCode, Sync)
+  logs : List Log := []          -- the constructor's buffered events, flushed into the creator's sink
+  pushed : Nat := 0              -- the word the instruction pushes: the new address, or 0
+  retBuf : ByteArray := .empty   -- the return-data buffer afterwards
+
+/-- compile.GetDeployCodeHash: "libraries lie about their deployed bytecode" — code that starts with PUSH20 of the contract's
+    own address is hashed with that address zeroed -/
+def deployCodeHash (code : ByteArray) (addr : Nat) : Nat :=
+  let pre := ByteArray.empty.push 0x73 ++ natBE addr 20
+  if code.size ≥ 21 && code.extract 0 21 == pre then
+    word (Keccak.keccak256 ((ByteArray.empty.push 0x73 ++ zeros 20) ++ code.extract 21 code.size))
+  else word (Keccak.keccak256 code)
+
+/-- the contract whose metadata governs what `creator` may create, and which becomes the new contract's forebear: the
+    creator's own forebear if it has one, else the creator.  `none`: an account that is looked up does not exist. -/
+def ancestorOf (creator : Nat) (w : World) : Option Account :=
+  match w.get creator with
+  | none => none
+  | some c =>
+    match c.forebear with
+    | none => some c
+    | some f => w.get f
+
+/-- what InitChildCode records as the new contract's forebear: the creator when it has none itself; otherwise — the code reads
+    `forebear = ancestor.Forebear` AFTER `ancestor` has been replaced by the creator's forebear — the forebear's own forebear.
+    A contract set up by `engine.InitEVMCode` is its own forebear, so the root is handed down; a root that records none (an
+    account as x/cvm's keeper rebuilds it from the store: the field is not persisted) breaks the chain after its children. -/
+def forebearOf (creator : Nat) (w : World) : Option Nat :=
+  match w.get creator with
+  | none => none
+  | some c =>
+    match c.forebear with
+    | none => some creator
+    | some f => (w.get f).bind (·.forebear)
+
+/-- InitChildCode dereferences a nil account when the creator's forebear does not exist (any more): the error message is
+    built from `*ancestor.Forebear` after `ancestor == nil` — a Go panic -/
+def initChildPanics (creator addr : Nat) (w : World) : Bool :=
+  match w.get addr, w.get creator with
+  | some acc, some c =>
+    acc.code.size == 0 && (match c.forebear with | some f => (w.get f).isNone | none => false)
+  | _, _ => false
+
+/-- `codehashPermitted` over the ancestor's metadata (an empty list permits everything) -/
+def codePermitted (metaList : List Nat) (code : ByteArray) (addr : Nat) : Bool :=
+  metaList.isEmpty || metaList.contains (word (Keccak.keccak256 code)) || metaList.contains (deployCodeHash code addr)
+
+/-- the error of `engine.InitChildCode(childCallFrame, addr, creator, code)` on the constructor's accounts `w`: the new account
+    must (still) exist and have no code, the creator and its forebear must exist, and the code's hash must be permitted by
+    the ancestor's metadata -/
+def initChildErr (q : Quirks) (creator addr : Nat) (code : ByteArray) (w : World) : Option Err :=
+  match w.get addr with
+  | none => if q.constructorSelfdestructAborts then some .nonExistentAccount else none   -- the constructor destroyed the account it was creating
+  | some acc =>
+    if acc.code.size != 0 then some .illegalWrite                       -- `acc.EVMCode != nil`
+    else match ancestorOf creator w with
+      | none => some .nonExistentAccount
+      | some anc => if q.childCodeWhitelist && !codePermitted anc.allowed code addr then some .invalidContractCode else none
+
+/-- what `InitChildCode` writes when it has no error: the returned bytes become the new account's code, and the account
+    records its forebear -/
+def initChildCode (creator addr : Nat) (code : ByteArray) (w : World) : World :=
+  match w.get addr with
+  | none => w
+  | some acc => w.put { acc with code := code, forebear := forebearOf creator w }
+
+/-- The commit rule of CREATE / CREATE2.  A constructor that ended with an error (revert, out of gas, any exception, a
+    failed endowment) leaves the creator's frame as it was: 0 is pushed and the constructor's output is the return data.
+    Otherwise `InitChildCode` stores the returned bytes as the new account's code inside the child frame, the child frame is
+    written into the creator's (`Sync` — refused by a read-only creator) and the events are handed over; the errors of
+    these steps go into the CREATOR's error sink. -/
+def settleCreate (q : Quirks) (readOnly : Bool) (creator addr : Nat) (w : World) (dirty : Bool) (removed : List Nat)
+    (r : CallRes) : Created :=
+  match r.err with
+  | some _ => { world := w, dirty := dirty, removed := removed, retBuf := r.ret }
+  | none =>
+    if !q.noCodeSizeLimit && r.ret.size > maxCodeSize then { world := w, dirty := dirty, removed := removed }
+    else
+      let e1 := initChildErr q creator addr r.ret r.world
+      if readOnly then
+        { world := w, dirty := dirty, removed := removed, err := if e1.isSome then e1 else some .illegalWrite, logs := r.logs, pushed := addr }
+      else
+        { world := if e1.isSome then r.world else initChildCode creator addr r.ret r.world, dirty := true, removed := r.removed,
+          err := e1, logs := r.logs, pushed := addr }
+
+/-- statistics and deviation points of a finished constructor (no effect on the execution) -/
+def createNotes (env : Env) (addr : Nat) (input : ByteArray) (r : CallRes) : M Unit := do
+  -- a constructor that ran out of gas is not an error of the creator (bit 256 of `seen`)
+  if r.err == some .insufficientGas then noteSeen 256
+  if !env.q.createInputIsInitCode && input.size != 0 && r.seen &&& calldataOps != 0 then noteDev 17
+  if !env.q.noCodeSizeLimit && r.err.isNone && r.ret.size > maxCodeSize then noteDev 22
+  if !env.q.constructorSelfdestructAborts && r.err.isNone && (r.world.get addr).isNone then noteDev 21
+  if !env.q.childCodeWhitelist && r.err.isNone &&
+      (initChildErr { env.q with childCodeWhitelist := true } env.callee addr r.ret r.world) == some .invalidContractCode then noteDev 23
+
+/-- CREATE / CREATE2, last part: the constructor's frame has returned `r` (status 0) -/
+def createAfter (env : Env) (addr : Nat) (input : ByteArray) (r : CallRes) : M Ctl := do
+  createNotes env addr input r
+  if r.err.isNone && initChildPanics env.callee addr r.world then goPanic
+  else
+    let s ← getF
+    let c := settleCreate env.q env.readOnly env.callee addr s.world s.dirty s.removed r
+    applySettled c.world c.dirty c.removed
+    match c.err with
+    | some e => pushErr e
+    | none => pure ()
+    -- childSink.flush(): a log-free sink refuses the first event
+    if !c.logs.isEmpty then (if env.readOnly then pushErr .illegalWrite else addLogs c.logs)
+    setRetBuf c.retBuf
+    push c.pushed
+    pure .next
+
+/-- the accounts the constructor's frame starts with: `engine.CreateAccount(childCallFrame, addr)` adds the new, empty account
+    unless the address is in use -/
+def createWorld (w : World) (addr : Nat) : World := if (w.get addr).isSome then w else w.put { addr := addr }
+
+/-- the constructor's call parameters: the init code is code and (in the implementation) call data, the creator is the
+    caller, the new address the callee; `seq` is the CVM's sequence counter at this point -/
+def createEnv (env : Env) (value addr : Nat) (input : ByteArray) (seq : Nat) : Env :=
+  { env with
+    code := input, opBits := opcodeBits input, input := if env.q.createInputIsInitCode then input else .empty,
+    value := value, caller := env.callee, callee := addr, callType := 0,
+    readOnly := env.readOnly && !env.q.staticNotInherited, seq0 := seq }
+
+theorem createEnv_q (env : Env) (value addr : Nat) (input : ByteArray) (seq : Nat) : (createEnv env value addr input seq).q = env.q := rfl
+
+/-- CREATE / CREATE2, middle part: the child frame in which the new account exists, and the constructor's run in it -/
+def createRun (child : ChildFn) (env : Env) (value addr : Nat) (input : ByteArray) : M Ctl := do
+  let s ← getF
+  let taken := (s.world.get addr).isSome
+  -- engine.CreateAccount(childCallFrame, addr): the account exists in the child frame only; an address in use is an error
+  -- of the CREATOR's frame (and the constructor still runs, on the account that is there)
+  if taken then pushErr .duplicateAddress
+  let s ← getF
+  -- `Gas: params.Gas`: the constructor runs on the creator's own gas
+  let r := child (createEnv env value addr input s.seq) s.gas (createWorld s.world addr) s.removed
+  orSeen r.seen r.dev r.devs
+  setSeq r.seq
+  leaveGas r.gasLeft
+  if r.status == 1 then goPanic
+  else if r.status != 0 then pure .unsupported
+  else createAfter env addr input r
+
+/-- CREATE / CREATE2 after the endowment has been popped (vm/contract.go `case CREATE, CREATE2`) -/
+def createRest (child : ChildFn) (env : Env) (op value : Nat) : M Ctl := do
+  setRetBuf .empty
+  let off ← pop; let size ← pop
+  if env.readOnly && !env.q.staticCreateRuns then
+    noteDev 18                        -- specification: no creation in a static context
+    pushErr .illegalWrite
+    return .next
+  let input ← memRead env.q off size
+  useGas Shentu.Gen.Gas.GasCreateAccount
+  let addr ← deriveAddr env op input
+  if ← selfGone env then
+    pushErr .generic                  -- EnsurePermission(…, CreateContract): the running contract's own account is gone; `continue`
+    return .jumped
+  let s ← getF
+  if addr ≤ 0xff || s.removed.contains addr then return .unsupported      -- natives / re-use of a destroyed address
+  if (s.world.get addr).isSome && !env.q.createCollisionAborts then
+    noteDev 20                        -- specification: the creation fails, the creator goes on
+    push 0
+    return .next
+  if !env.q.unpayableCreateRuns && (value ≥ 2 ^ 63 || value > ((s.world.get env.callee).map (·.balance)).getD 0) then
+    noteDev 19                        -- specification: the constructor is not run
+    push 0
+    return .next
+  createRun child env value addr input
+
+/-- what EXP, RETURNDATACOPY, SSTORE, LOGn, DELEGATECALL, CREATE2 and STATICCALL do after their first Pop -/
 def freeRest (child : ChildFn) (env : Env) (op : Nat) (a : Nat) : M Ctl := do
   match op with
   | 0x0a => do
@@ -670,6 +910,7 @@ def freeRest (child : ChildFn) (env : Env) (op : Nat) (a : Nat) : M Ctl := do
       if (s.world.get env.callee).isNone then pushErr .illegalWrite else setWorld (s.world.sstore env.callee k v)
     pure .next
   | 0xf4 => do if ← selfGone env then pure .unsupported else callRest child env op a
+  | 0xf5 => createRest child env op a
   | 0xfa => do if ← selfGone env then pure .unsupported else callRest child env op a
   | _ => do                                        -- LOG0 … LOG4
     let o := a; let l ← pop
@@ -820,6 +1061,9 @@ def execRegular (child : ChildFn) (env : Env) (op : Nat) : M Ctl := do
     else
       let g ← pop
       callRest child env op g
+  | 0xf0 => do
+    let v ← pop
+    createRest child env op v
   | 0x41 => do push 0; pure .next
   | 0x42 => do push env.time; pure .next
   | 0x43 => do push env.height; pure .next
@@ -875,8 +1119,7 @@ def execRegular (child : ChildFn) (env : Env) (op : Nat) : M Ctl := do
     else do pushErr .generic; pure (.halt .empty)   -- not reached: `exec` sends every other opcode elsewhere
 
 def exec (child : ChildFn) (env : Env) (op : Nat) : M Ctl :=
-  if isExt op then pure .unsupported
-  else if isHalting op then execHalt env op
+  if isHalting op then execHalt env op
   else if isFree op then execFree child env op
   else execRegular child env op
 
@@ -924,7 +1167,7 @@ def step (child : ChildFn) (env : Env) : M Step := fun s =>
   match s.err with
   | some e => ⟨(some (.done .empty (some e)), s), Inv.refl s⟩
   | none =>
-    if isExt (opAt env s.pc) || outsideModel env s then ⟨(some .unsupported, s), Inv.refl s⟩
+    if outsideModel env s then ⟨(some .unsupported, s), Inv.refl s⟩
     else if !env.q.noStackLimit && s.stack.length > 1024 then
       -- specification: the instruction that pushed the 1025th item was an exceptional halt
       (noteDev 4 >>= fun _ => pure (.done .empty (some .dataStackOverflow))) s
@@ -967,15 +1210,15 @@ def packRes (terr : Option Err) (o : Outcome) (s : Frame) : CallRes :=
   match o with
   | .done r e =>
     { ret := r, err := if terr.isSome then terr else e, gasLeft := s.gas, world := s.world, dirty := s.dirty,
-      removed := s.removed, logs := s.logs.reverse, seen := s.seen, dev := s.dev, devs := s.devs }
-  | .panic => { status := 1, gasLeft := s.gas, logs := s.logs.reverse, seen := s.seen, dev := s.dev, devs := s.devs }
-  | .unsupported => { status := 2, gasLeft := s.gas, seen := s.seen, dev := s.dev, devs := s.devs }
-  | .outOfFuel => { status := 3, gasLeft := s.gas, seen := s.seen, dev := s.dev, devs := s.devs }
+      removed := s.removed, logs := s.logs.reverse, seen := s.seen, dev := s.dev, devs := s.devs, seq := s.seq }
+  | .panic => { status := 1, gasLeft := s.gas, logs := s.logs.reverse, seen := s.seen, dev := s.dev, devs := s.devs, seq := s.seq }
+  | .unsupported => { status := 2, gasLeft := s.gas, seen := s.seen, dev := s.dev, devs := s.devs, seq := s.seq }
+  | .outOfFuel => { status := 3, gasLeft := s.gas, seen := s.seen, dev := s.dev, devs := s.devs, seq := s.seq }
 
 /-- one call frame as `engine.Call` runs it -/
 def runFrame (child : ChildFn) (env : Env) (gas : Nat) (w : World) (removed : List Nat) : CallRes :=
   let t := openFrame env w
-  let os := frameRun child env { gas := gas, world := t.1, dirty := t.2.2, removed := removed }
+  let os := frameRun child env { gas := gas, world := t.1, dirty := t.2.2, removed := removed, seq := env.seq0 }
   packRes t.2.1 os.1 os.2
 
 /-- frames nested at most `d` deep below this one; deeper calls are outside the model -/
